@@ -505,6 +505,7 @@ impl Prop for C17 {
             GenSpec::random("generic-large-traced", tier.pick(2_000, 100_000)),
             GenSpec::enumerated("embedded-4", 4096),
             GenSpec::random("embedded-dag", tier.pick(1_500, 100_000)),
+            GenSpec::random("embedded-lock-state", tier.pick(150, 3000)),
             GenSpec::random("embedded-cyclic-raw-deporder", tier.pick(24, 300)).isolated(),
             GenSpec::random("embedded-cyclic-raw-to_proto", tier.pick(24, 300)).isolated(),
             GenSpec::random("embedded-cyclic-gds", tier.pick(24, 300)).isolated(),
@@ -637,6 +638,70 @@ impl Prop for C17 {
                 self.embedded_gds(cx, &g, &listing, "embedded");
                 self.embedded_tetris(cx, &g, &listing, "embedded", 7);
                 cx.sample(|| json!({"nodes": n, "edges": g.iter().map(|d| d.len()).sum::<usize>(), "listing_head": listing.iter().take(8).collect::<Vec<_>>()}));
+            }
+            "embedded-lock-state" => {
+                // the state of the cells' locks at the moment of the call: a cell that another thread is editing (its write guard is held while
+                // the orderer starts, and released a little later), or a cell whose lock an earlier panic poisoned. The orderer may wait, and on
+                // a poisoned cell it may refuse (panic / error): what it may never do is hand back an ordering that breaks the rule.
+                let n = 2 + cx.rng.usize(12);
+                let g = random_dag(&mut cx.rng, n, 300);
+                let mut listing: Vec<usize> = (0..n).collect();
+                cx.rng.shuffle(&mut listing);
+                listing.sort_by_key(|i| std::cmp::Reverse(g[*i].len())); // users first, so that the order has to be repaired
+                if cx.rng.chance(1, 3) {
+                    listing.truncate(1 + cx.rng.usize(n));
+                }
+                let lib = tetris_lib(&g, &listing);
+                let users: Vec<usize> = (0..lib.cells.len()).filter(|k| !g[idx_of(&lib.cells[*k].read().unwrap().name)].is_empty()).collect();
+                if users.is_empty() {
+                    cx.count("lock_state_graph_without_edges");
+                    return;
+                }
+                let victim = lib.cells[*cx.rng.pick(&users)].clone();
+                cx.nontrivial(crate::rt::prng::strhash(&format!("{:?}{:?}", g, listing)));
+                cx.eval();
+                let poisoned = cx.rng.chance(1, 3);
+                let names = |cells: &[layout21tetris::utils::Ptr<layout21tetris::cell::Cell>]| -> Vec<usize> {
+                    cells.iter().map(|c| idx_of(&match c.read() { Ok(g) => g.name.clone(), Err(p) => p.into_inner().name.clone() })).collect()
+                };
+                let res = if poisoned {
+                    let v2 = victim.clone();
+                    let _ = guard(move || {
+                        let _g = v2.write().unwrap();
+                        panic!("lvh: poisoning a cell lock on purpose");
+                    });
+                    if !victim.is_poisoned() {
+                        cx.inconclusive("could not poison a cell lock");
+                        return;
+                    }
+                    guard(|| lib.dep_order()).map(|c| names(&c))
+                } else {
+                    let (tx_started, rx_started) = std::sync::mpsc::channel::<()>();
+                    let wg = victim.write().unwrap();
+                    std::thread::scope(|sc| {
+                        let h = sc.spawn(|| {
+                            let _ = tx_started.send(());
+                            guard(|| lib.dep_order()).map(|c| names(&c))
+                        });
+                        let _ = rx_started.recv();
+                        std::thread::sleep(std::time::Duration::from_millis(15));
+                        drop(wg);
+                        h.join().unwrap_or_else(|_| Err(Caught { msg: "orderer thread died".into(), ..Default::default() }))
+                    })
+                };
+                let class = if poisoned { "lock-state|poisoned-cell" } else { "lock-state|cell-being-edited" };
+                match res {
+                    Err(c) if poisoned => {
+                        let _ = c;
+                        cx.count("lock_state_poisoned_refused");
+                    }
+                    Err(c) => cx.violation(&format!("{}|tetris-dep_order|panic|{}", class, c.norm_msg()), json!({"graph": g, "listing": listing, "panic": c.msg})),
+                    Ok(seq) => match judge(&g, &listing, Some(&seq)) {
+                        Err(w) => cx.violation(&format!("{}|tetris-dep_order|{}", class, w), json!({"graph": g, "listing": listing, "result": seq})),
+                        Ok(()) => cx.count(if poisoned { "lock_state_poisoned_valid_order" } else { "lock_state_waited_valid_order" }),
+                    },
+                }
+                cx.sample(|| json!({"nodes": n, "poisoned": poisoned}));
             }
             "embedded-cyclic-raw-deporder" | "embedded-cyclic-raw-to_proto" | "embedded-cyclic-gds" | "embedded-cyclic-tetris-dep_order" | "embedded-cyclic-tetris-proto" | "embedded-cyclic-tetris-placer" => {
                 let big = cx.n % 4 == 0;
